@@ -89,8 +89,10 @@ PROPS = {
             "rule": "C15 plan: FillNa/DropNa/Astype/AddDatetimeIndex on columns of every kind with nils, unconvertible cells at any position, valid and invalid target names and layouts."},
     "C16": {"plans": ["C16"], "codes": [1, 2, 49],
             "rule": "C16 plan: Sum/Mean/Min/Max/Describe on columns mixing int, int64, float32, float64 and numeric strings, NaN anywhere, one non-numeric cell at any position, empty columns; Add on frame pairs with independent lengths."},
-    "C17": {"plans": ["C17seq"], "codes": [1, 2, 53],
-            "rule": "C17 plan: Apply on both axes with every function of the menu, frames up to 40 rows (more rows than workers)."},
+    "C17": {"plans": ["C17seq", "C17sched"], "race": ["C17sched"], "codes": [1, 2, 53, 30],
+            "rule": "C17 plans: (seq) Apply on both axes with every function of the menu, frames up to 40 rows (more rows than workers); "
+                    "(sched) row-wise Apply with its completion order FORCED through the verif-tagged gate hook: every permutation for 1..5 rows, then "
+                    "sampled worker-valid orders for 6..40 rows (more rows than workers), the whole plan under the Go race detector."},
     "C18": {"plans": ["C18"], "codes": [1, 2, 50],
             "rule": "C18 plan: frames with an unsorted, repeating time column 1900-2100 in UTC or one fixed-offset zone, six frequency codes, four aggregators, each call repeated 5 times."},
     "C19": {"plans": ["C19"], "codes": [1, 2, 41, 20], "exhaustive_all": False,
